@@ -345,7 +345,8 @@ func (p *parser) parseDividend(r *record) (bool, error) {
 			Credit:    p.dividend,
 			Debit:     p.account,
 			Commodity: r.currency,
-			Quantity:  r.price,
+			// the gross amount: what arrives plus the tax withheld (the price column is per share)
+			Quantity: r.netQuantity.Add(r.fee),
 		},
 	}
 	if !r.fee.IsZero() {
